@@ -315,6 +315,33 @@ def search(ctx):
         except Exception as ex:
             if type(ex).__name__ != "MultisphereFailure":
                 ctx.violation("C09:auto-with-priors-raises:%s" % type(ex).__name__, "cluster described with priors raised %r" % (ex,), info)
+    # the refractive index of a UNIFORM sphere may be written per colour (a dictionary over the illumination labels) in a
+    # multi-colour calculation: the spheres are still uniform, the rule is the documented one, and naming no theory equals naming it
+    for j in range(ctx.n(4, 12)):
+        ncol = 2 + j % 2
+        labels = ['red', 'green', 'blue'][:ncol]
+        rA = float(rng.uniform(0.25, 0.45))
+        sep = float(rng.uniform(1.0, 2.0)) if j % 4 < 2 else float(rng.uniform(31.0, 40.0)) * rA
+        ndict = lambda base: {lab: base + 0.015 * q for q, lab in enumerate(labels)}
+        cl = Spheres([Sphere(n=ndict(1.58), r=rA, center=(1.2, 1.5, 5.0)), Sphere(n=ndict(1.5), r=0.9 * rA, center=(1.2 + sep, 1.5, 5.2))], warn=False)
+        want = "Multisphere" if sep <= 30 * rA else "Mie"
+        ctx.tried("per-colour-index", (ncol, want, j))
+        info = dict(kind="per-colour-index", colours=ncol, radius=rA, separation=sep, rule=want)
+        r = impl_call(lambda: type(determine_default_theory_for(cl)).__name__)
+        got = r if isinstance(r, str) else "err:" + r[1]
+        if got != want:
+            ctx.violation("C09:rule:per-colour-index", "two uniform spheres %.2f largest radii apart whose index is written per colour (%d colours) get %s; the documented rule says %s" % (sep / rA, ncol, got, want), info)
+            continue
+        try:
+            dcol = detector_grid((3, 2), 0.4, extra_dims={'illumination': labels})
+            okw = dict(medium_index=1.33, illum_wavelen={lab: 0.66 - 0.07 * q for q, lab in enumerate(labels)}, illum_polarization=(1, 0))
+            named = calc_holo(dcol, cl, theory=(Multisphere() if want == "Multisphere" else Mie()), **okw).values
+            auto = calc_holo(dcol, cl, **okw).values
+            if not np.array_equal(auto, named):
+                ctx.violation("C09:auto-vs-explicit:per-colour-index", "%d colours, index per colour: naming no theory differs from naming %s by %.3g" % (ncol, want, float(np.abs(auto - named).max())), info)
+        except Exception as ex:
+            if type(ex).__name__ != "MultisphereFailure":
+                ctx.violation("C09:raises:per-colour-index:%s" % type(ex).__name__, "multi-colour cluster with per-colour indices raised %r" % (ex,), info)
     # other shapes and non-scatterers
     for obj, want in ((Ellipsoid(n=1.5, r=(0.3, 0.4, 0.5), center=(0, 0, 1)), "DDA" if HAVE_ADDA else "err:DependencyMissing"),
                       ("not a scatterer", "err:AutoTheoryFailed"), (Spheroid(n=1.5, r=(0.4, 0.6), center=(0, 0, 1)), "Tmatrix"),
